@@ -5,6 +5,7 @@
 //! The python driver `/verif/check` turns the report into evidence / VIOLATION lines.
 
 mod common;
+mod c01;
 mod c02;
 mod c03;
 mod c04;
@@ -66,6 +67,7 @@ fn main() {
     let mut rep = Report::default();
     let (rule, bounds): (String, String) = if let Some(case) = &replay {
         match id {
+            "C01" => c01::replay(case, &mut rep),
             "C02" => c02::replay(case, &mut rep),
             "C03" => c03::replay(case, &mut rep),
             "C04" => c04::replay(case, &mut rep),
@@ -87,6 +89,7 @@ fn main() {
         ("replay of one recorded case".into(), case.clone())
     } else {
         match id {
+            "C01" => c01::run(tier, &mut rep),
             "C02" => c02::run(tier, &mut rep),
             "C03" => c03::run(tier, &mut rep),
             "C04" => c04::run(tier, &mut rep),
